@@ -654,9 +654,14 @@ class DAG(nx.DiGraph):
         # Remove the start and end nodes in case it reaches there while removing latents.
         separator.difference_update({start, end})
 
-        # If the initial set is not able to d-separate, no d-separator is possible.
+        # Without latents: if the parents are not able to d-separate, no d-separator
+        # is possible. With latents the replaced parents may fail although an observed
+        # separator exists; the observed ancestors of start and end separate whenever
+        # some observed set does.
         if an_graph.is_dconnected(start, end, observed=separator):
-            return None
+            separator = set(an_graph.nodes()) - self.latents - {start, end}
+            if an_graph.is_dconnected(start, end, observed=separator):
+                return None
 
         # Go through the separator set, remove one element and check if it remains
         # a dseparating set.
